@@ -126,8 +126,17 @@ def falls_through(an: Analysis, fn: FunctionInfo) -> bool:
     g = an.cfg(fn)
     reach = reachable_from_entry(an, fn)
     for p in g.exit.pred:
-        if p in reach and p.kind != "return" and any(s is g.exit for s, _ in p.succ):
+        if p in reach and not is_return_tail(p) and any(s is g.exit for s, _ in p.succ):
             return True
+    return False
+
+
+def is_return_tail(p, _depth=0) -> bool:
+    """a return statement, or the __exit__ of a `with` that a return inside it runs on its way out"""
+    if p.kind == "return":
+        return True
+    if p.kind == "with_exit" and p.pred and _depth < 6:
+        return all(is_return_tail(q, _depth + 1) for q in p.pred)
     return False
 
 
